@@ -53,6 +53,10 @@ class YowNoiseLayer(YowLayer):
     @EventCallback(YowNetworkLayer.EVENT_STATE_DISCONNECTED)
     def on_disconnected(self, event):
         self._wa_noiseprotocol.reset()
+        # a handshake worker that was cut off before the server answered is still waiting on the segment queue;
+        # retire the queue and the stream with it, otherwise it would consume the next attempt's server hello
+        self._incoming_segments_queue = Queue.Queue()
+        self._stream = BlockingQueueSegmentedStream()
 
     @EventCallback(YowAuthenticationProtocolLayer.EVENT_AUTH)
     def on_auth(self, event):
